@@ -119,6 +119,21 @@ Theorem C07_roundtrip : forall sc x,
     exists v, to_value_scalar sc x = Ok v /\ parse_scalar sc v = Ok x.
 Proof. exact scalar_roundtrip. Qed.
 
+(* --- end to end: the validator registered for the type name vs. parse -------- *)
+(* whatever parse accepts passes the registered is_valid, outside the known class
+   (unsigned 64-bit scalar, integer above i64::MAX) *)
+Theorem C07_valid_registered_of_parse : forall sc v x,
+    wf_gv v = true -> parse_scalar sc v = Ok x -> known_e2e sc v <> 4%N ->
+    valid_registered sc v = true.
+Proof. exact valid_registered_of_parse. Qed.
+(* known finding: u64 <- 9223372036854775808 is in the domain, parse accepts it,
+   the validator registered for "Int" (i32's) rejects it *)
+Theorem C07_valid_registered_refuted :
+  exists sc v x, wf_gv v = true /\ parse_scalar sc v = Ok x /\ valid_registered sc v = false /\
+                 known_e2e sc v = 4%N /\ is_err (e2e_model sc (Some v)) = true /\
+                 spec_parse_ok sc v (Ok x) = true.
+Proof. exact valid_registered_refuted. Qed.
+
 (* non-vacuity: the hypotheses are met by non-trivial inputs *)
 Theorem C07_nonvacuous :
   (exists im, assoc 10%N int_impls_gen = Some im /\ ii_prim im = I8 /\ ii_nonzero im = true /\
@@ -168,4 +183,6 @@ Print Assumptions C07_float_nonfinite_refuted.
 Print Assumptions C07_float_nonfinite_lost.
 Print Assumptions C07_parse_meets_spec.
 Print Assumptions C07_roundtrip.
+Print Assumptions C07_valid_registered_of_parse.
+Print Assumptions C07_valid_registered_refuted.
 Print Assumptions C07_nonvacuous.
